@@ -28,6 +28,8 @@ def run(ctx):
     T.clause_tables(R, F, "commit_changes")
     T.clause_reorg_order(R, F)
     T.clause_stamps(R, F, CG)
+    # the cached chain tip never outlives the blocks it points at (heights stay contiguous after clear_caches / reorg)
+    T.clause_derived_caches_coherent(R, F)
     T.clause_max_monotone(R, F)
     T.clause_next_height_siblings(R, F)
     W.clause_engine_reorg(R, F, CG)
